@@ -5,6 +5,10 @@ import PetgraphModel.Proofs.AcyclicPK
 import PetgraphModel.Proofs.AcyclicNP
 import PetgraphModel.Proofs.AcyclicTS
 import PetgraphModel.Proofs.C14W2Topo
+import PetgraphModel.Proofs.C14W4Checks
+import PetgraphModel.Proofs.C14W4Range
+import PetgraphModel.Proofs.C14W4Graph
+import PetgraphModel.Proofs.C14W4Stable
 /-
 C14 — `Acyclic<G>` never lets a cycle in and keeps a valid topological order.
 
@@ -31,10 +35,22 @@ The inner graph is a parameter of the model: a call comes with the graph `v'` th
 behind, constrained only by `Call.InnerOk` / `EdgesOk` (which indices are live and which edges exist
 afterwards) — so the theorems hold for `DiGraph` (whose `remove_node` renumbers its last node) and
 `StableDiGraph` (which reuses vacant indices) alike.
+
+Wave 4 (the last sections of this file):
+    - `C14_range_*`             `range` lists exactly the nodes of the position interval, in topological order,
+    - `C14_reject_unchanged_any`, `C14_reject_changes_nothing`, `C14_absent_endpoint_*`, `C14_absent_target_panics`,
+    - `C14_*_check`, `C14_checked_step`, `C14_checked_from`   the driver's run-time Booleans
+      (`Driver/C14Checks.lean`) imply every hypothesis above (`ViewOk`, `Closed`, `Safe`, `TopoFuelOk`,
+      `Call.InnerOk`, `EdgesOk`): every judged case is inside the theorems' scope,
+    - `C14_storage_*`, `C14_digraph_*`, `C14_stable_*`   the contracts INSTANTIATED with the C01 (`Graph`) and
+      C02 (`StableGraph`) storage models: both satisfy `InnerOk` / `EdgesOk` for every call, so the
+      all-histories, rejection, no-panic and `try_from_graph` theorems hold for `Acyclic<DiGraph>` and
+      `Acyclic<StableDiGraph>` unconditionally (no contract, no fuel hypothesis).
 -/
 namespace PetgraphModel.C14T
 open PetgraphModel PetgraphModel.MGraph PetgraphModel.Oracle PetgraphModel.Dag PetgraphModel.Acy
 open PetgraphModel.AcyProofs PetgraphModel.AcyPK PetgraphModel.AcyNP PetgraphModel.AcyTS PetgraphModel.AcyW2
+open PetgraphModel.AcyW4
 
 /-! ### the specification and its judges -/
 
@@ -490,5 +506,418 @@ example : Inv exView exState := by
   · intro x hx
     simp only [exView, List.mem_cons, List.mem_nil_iff, or_false] at hx
     rcases hx with rfl | rfl | rfl <;> decide
+
+/-! ### wave 4: `range`
+
+`range(lo, hi)` was mirrored only; these are its order-map theorems (`nodes_iter`, `get_position`,
+`at_position` have theirs above). -/
+
+/-- `range(lo, hi)` panics exactly when std's `BTreeMap::range` does: inverted (or empty-excluded)
+bounds on a map that has a root. -/
+theorem C14_range_panics_iff (om : OrderMap) (lo hi : Bnd) :
+    om.range lo hi = none ↔ rangePanics lo hi = true ∧ om.p2n ≠ [] :=
+  range_none_iff om lo hi
+
+/-- `range(..)` is `nodes_iter()`. -/
+theorem C14_range_unbounded (om : OrderMap) : om.range .unb .unb = some om.nodesIter :=
+  range_unbounded om
+
+/-- **`range` lists exactly the live nodes whose position lies in the interval**, each once, by
+increasing position, as a sublist of `nodes_iter`. -/
+theorem C14_range_lists_interval (L : List Nat) (om : OrderMap) (h : OMInv L om) (lo hi : Bnd) (l : List Nat)
+    (hr : om.range lo hi = some l) :
+    l.Nodup ∧
+    (∀ x, x ∈ l ↔ x ∈ L ∧ ∃ p, om.getPos x = .ok p ∧ lo.loOk p = true ∧ hi.hiOk p = true) ∧
+    l.Sublist om.nodesIter ∧
+    l.Pairwise (fun x y => ∀ px py, om.getPos x = .ok px → om.getPos y = .ok py → px < py) :=
+  range_spec h hr
+
+/-- **`range` is topologically ordered**: under the invariant with a valid order (i.e. after every
+history), every edge between two nodes listed by `range(lo, hi)` goes from an earlier to a later
+place of that list. -/
+theorem C14_range_topological (v : View) (s : AState) (h : Inv2 v s) (lo hi : Bnd) (l : List Nat)
+    (hr : s.om.range lo hi = some l) :
+    ∀ a b, b ∈ v.succ a → a ∈ l → b ∈ l → l.idxOf a < l.idxOf b :=
+  range_topological h hr
+
+/-- JUDGE (`range`): the specification function the driver judges a `range` answer with
+(`Dag.rangeSpec`: the reported order filtered by the reported positions), applied to the model's own
+`nodes_iter` and `get_position`, is the model's `range`. -/
+theorem C14_range_judge (L : List Nat) (om : OrderMap) (h : OMInv L om) (lo hi : Bnd) (l : List Nat)
+    (pos : List (Nat × Nat)) (hpos : ∀ n ∈ L, ∀ p, om.getPos n = .ok p → pos.lookup n = some p)
+    (hr : om.range lo hi = some l) : l = rangeSpec om.nodesIter pos lo.loOk hi.hiOk :=
+  range_eq_rangeSpec h pos hpos hr
+
+example : exState.om.range (.inc 1) .unb = some [1, 2] ∧ exState.om.range (.exc 2) (.exc 2) = none ∧
+    ({} : OrderMap).range (.exc 2) (.exc 2) = some [] := by decide
+
+/-! ### wave 4: a rejected insertion changes nothing; insertions with an absent endpoint -/
+
+/-- **reject ⇒ unchanged, unconditionally** (sharpens `C14_reject_unchanged`): whenever
+`try_add_edge` / `try_update_edge` / `Build::add_edge` / `Build::update_edge` returns anything but
+"accepted", the order map and both scratch bit sets are exactly what they were (only the capacity of
+the scratch sets may have grown) — in ANY state and for ANY indices: no invariant, no liveness, no
+well-formed view is assumed. -/
+theorem C14_reject_unchanged_any (v : View) (s s' : AState) (a b : Nat) (r : EdgeRes)
+    (h : tryAddEdge v s a b = .ok (s', r)) (hrej : r ≠ .accepted) :
+    s'.om = s.om ∧ s'.disc = s.disc ∧ s'.fin = s.fin ∧ s.cap ≤ s'.cap :=
+  reject_unchanged_any h hrej
+
+/-- **a rejected insertion leaves the inner graph AND the order map as they were**: in the model a
+rejected call never reaches the inner graph — whatever graph `v'` an accepted call would have left,
+the transition keeps the old graph `v` — and the bookkeeping is equal. -/
+theorem C14_reject_changes_nothing (v v' : View) (s s' : AState) (a b : Nat) (r : EdgeRes)
+    (h : tryAddEdge v s a b = .ok (s', r)) (hrej : r ≠ .accepted) :
+    stepCall v s (.edge a b v') = .ok (v, s') ∧
+    s'.om = s.om ∧ s'.disc = s.disc ∧ s'.fin = s.fin ∧ s.cap ≤ s'.cap := by
+  refine ⟨?_, reject_unchanged_any h hrej⟩
+  cases r with
+  | accepted => exact absurd rfl hrej
+  | selfLoop => simp only [AcyProofs.stepCall, h]
+  | cycle n => simp only [AcyProofs.stepCall, h]
+
+/-- an insertion naming an ABSENT endpoint is never accepted; if the call returns at all (instead of
+the documented panic) it was rejected and nothing changed. -/
+theorem C14_absent_endpoint_never_accepted (v : View) (s s' : AState) (a b : Nat) (r : EdgeRes)
+    (habs : a ∉ v.g.nodes ∨ b ∉ v.g.nodes) (h : tryAddEdge v s a b = .ok (s', r)) :
+    r ≠ .accepted ∧ s'.om = s.om ∧ s'.disc = s.disc ∧ s'.fin = s.fin ∧ s.cap ≤ s'.cap :=
+  absent_never_accepted habs h
+
+/-- … and the only answers it can return are `Err(SelfLoop)` (then `a = b`, state equal) and
+`Err(Cycle(b))`. -/
+theorem C14_absent_endpoint_shape (v : View) (s s' : AState) (a b : Nat) (r : EdgeRes)
+    (habs : a ∉ v.g.nodes ∨ b ∉ v.g.nodes) (h : tryAddEdge v s a b = .ok (s', r)) :
+    (r = .selfLoop ∧ a = b ∧ s' = s) ∨ (r = .cycle b ∧ a ≠ b) :=
+  absent_source_shape habs h
+
+/-- an absent TARGET always panics, as documented: with `b` not live, `a ≠ b`, the model's
+`try_add_edge(a, b)` ends in one of the mirrored panics in every state.  (`v.succ b = []`: an absent
+index has no neighbours — part of `viewOkB`.)  With an absent SOURCE the model — like the crate — may
+instead answer `Err(Cycle(b))` from a stale `node_to_pos` entry; see `C14_absent_endpoint_shape`. -/
+theorem C14_absent_target_panics (v : View) (s : AState) (a b : Nat) (hb : b ∉ v.g.nodes) (hab : a ≠ b)
+    (hdead : v.succ b = []) : ∃ e, tryAddEdge v s a b = .error e :=
+  absent_target_panics s hb hab hdead
+
+/-- non-vacuity: index 7 is absent from `exView`; as a target the call panics, as a source too here
+(`get_position(7)` is out of bounds), and `try_add_edge(7, 7)` is `Err(SelfLoop)` -/
+example : (okOf (tryAddEdge exView exState 0 7)) = none ∧ (okOf (tryAddEdge exView exState 7 0)) = none ∧
+    (okOf (tryAddEdge exView exState 7 7)).map (·.2) = some .selfLoop := by decide
+
+/-- a stale slot: after `remove_node(1)` on a `DiGraph` `0 → 2` (node 2 moves into index 1 and keeps
+position 2, slot 2 of `node_to_pos` keeps the stale 2), `try_add_edge(2, 0)` with the absent source
+`2` answers `Err(Cycle(0))` instead of panicking — and changes nothing. -/
+def staleView : View :=
+  { g := { directed := true, nodes := [0, 1], edges := [⟨0, 0, 1, 7⟩] }, nb := 2, ix := [],
+    out := [(0, [(1, 0)]), (1, [])], inn := [(0, []), (1, [(0, 0)])] }
+def staleState : AState := { om := { p2n := [(0, 0), (2, 1)], n2p := [0, 2, 2] }, cap := 3 }
+example : (okOf (tryAddEdge staleView staleState 2 0)).map (fun r => (r.1.om == staleState.om, r.2)) =
+    some (true, .cycle 0) := by decide
+
+/-! ### wave 4: run-time checks of the hypotheses
+
+Every hypothesis of the theorems above that concerns the concrete case is an executable Boolean of
+`Driver/C14Checks.lean`, evaluated by the driver on every graph line / state / call it judges
+(`SPECFAIL side condition <name> does not hold` otherwise).  These theorems say the Booleans imply the
+hypotheses — so every judged case is inside the theorems' scope. -/
+
+/-- the Boolean forms of `Call.InnerOk` / `EdgesOk` (they include `viewOkB` of the graph after the call) -/
+abbrev innerOkB := AcyW4.innerOkB
+abbrev edgesOkB := AcyW4.edgesOkB
+
+/-- `viewOkB` (every `graph` line): the view hypotheses of all theorems — directed, nodes listed once,
+edge endpoints live (`hd`, `hwf`), `ViewOk`, `Closed`, sources live (`hsrc`), live index below
+`node_bound` (`hnb`, `Safe.index`), both DFS fuel bounds (`Safe.fuel`) and the `toposort` fuel bound
+`TopoFuelOk`; and an absent index has no neighbours. -/
+theorem C14_viewOk_check (v : View) (h : C14.viewOkB v = true) :
+    v.g.directed = true ∧ v.g.nodes.Nodup ∧ (∀ e ∈ v.g.edges, e.src ∈ v.g.nodes ∧ e.tgt ∈ v.g.nodes) ∧
+    ViewOk v ∧ Closed v ∧ (∀ x y, y ∈ v.succ x → x ∈ v.g.nodes) ∧ (∀ x ∈ v.g.nodes, x < v.nb) ∧
+    (∀ dir, needL (fun x => (nbrs dir v x).length) [] v.g.nodes + 1 ≤ dfsFuel v) ∧ TopoFuelOk v ∧
+    (∀ a, a ∉ v.g.nodes → v.succ a = [] ∧ v.pred a = []) :=
+  let c := viewChecked_of_viewOkB h
+  ⟨c.directed, c.nodup, c.edgesLive, c.viewOk, c.closed, c.srcLive, c.index, c.dfsFuelOk, c.topoFuelOk,
+    fun a ha => ⟨c.succDead a ha, c.predDead a ha⟩⟩
+
+/-- `safeB` (every state of the mirror model the driver judges in): `Safe v s` — hence `Inv2`, `Inv`,
+`OMInv`, `Clear`, `OrderValid`, i.e. every state hypothesis of the step, history, rejection, range
+and no-panic theorems — and the inner graph is acyclic (`hac` of the dynamic clause). -/
+theorem C14_safe_check (v : View) (s : AState) (hv : C14.viewOkB v = true) (h : C14.safeB v s = true) :
+    Safe v s ∧ Inv2 v s ∧ Inv v s ∧ OMInv v.g.nodes s.om ∧ Clear s ∧ OrderValid v s.om ∧ Dag.Acyclic v.g :=
+  let hs := safe_of_checks hv h
+  let c := viewChecked_of_viewOkB hv
+  ⟨hs, hs.inv2, hs.inv2.1, hs.inv2.1.1, hs.inv2.1.2.1, hs.inv2.2.1, inv2_acyclic hs.inv2 c.directed c.edgesLive⟩
+
+/-- the liveness test of the driver (`live v a`) is membership in the node list (`ha`, `hb`) -/
+theorem C14_live_check (v : View) (a : Nat) : live v a = true ↔ a ∈ v.g.nodes := live_iff v a
+
+/-- `innerOkB` (every graph line that follows a call): the contract `Call.InnerOk`, and the extra
+hypothesis of `C14_no_panic_step` (a new index is below the new `node_bound`). -/
+theorem C14_innerOk_check (v : View) (c : Call) (h : innerOkB v c = true) :
+    c.InnerOk v ∧ ∀ i v', c = .addNode i v' → i < v'.nb :=
+  ⟨innerOk_of_check h, addNode_index_of_check h⟩
+
+/-- `edgesOkB` (every graph line that follows a call): the contract `EdgesOk`. -/
+theorem C14_edgesOk_check (v : View) (c : Call) (h : edgesOkB v c = true) : EdgesOk v c :=
+  edgesOk_of_check h
+
+/-- **a checked step is inside every theorem's scope**: if the graph line, the model state and the
+call pass the driver's checks, then the call returns in the model (no mirrored panic, fuel suffices),
+and the state it leaves again satisfies `Safe` and the graph it leaves is acyclic. -/
+theorem C14_checked_step (v : View) (s : AState) (c : Call) (hv : C14.viewOkB v = true)
+    (hs : C14.safeB v s = true) (hi : innerOkB v c = true) (he : edgesOkB v c = true) :
+    ∃ v1 s1, stepCall v s c = .ok (v1, s1) ∧ Safe v1 s1 ∧ Dag.Acyclic v1.g := by
+  have hsafe := safe_of_checks hv hs
+  obtain ⟨⟨v1, s1⟩, hstep⟩ := stepCall_total hsafe (innerOk_of_check hi) (addNode_index_of_check hi)
+  have hinv2 := inv2_step hsafe.inv2 (innerOk_of_check hi) (edgesOk_of_check he) hstep
+  have hview : C14.viewOkB v1 = true := by
+    cases c with
+    | addNode i v' =>
+      simp only [AcyW4.innerOkB, Bool.and_eq_true] at hi
+      simp only [AcyProofs.stepCall] at hstep
+      split at hstep
+      · cases hstep; exact hi.1
+      · cases hstep
+    | edge a b v' =>
+      simp only [AcyW4.innerOkB, Bool.and_eq_true] at hi
+      simp only [AcyProofs.stepCall] at hstep
+      split at hstep
+      · cases hstep; exact hi.1
+      · cases hstep; exact hv
+      · cases hstep
+    | removeNode n v' =>
+      simp only [AcyW4.innerOkB, Bool.and_eq_true] at hi
+      simp only [AcyProofs.stepCall] at hstep
+      split at hstep
+      · cases hstep; exact hi.1
+      · cases hstep; exact hv
+      · cases hstep
+    | removeEdge v' =>
+      simp only [AcyW4.innerOkB, Bool.and_eq_true] at hi
+      simp only [AcyProofs.stepCall] at hstep
+      cases hstep; exact hi.1
+    | isValid a b =>
+      simp only [AcyProofs.stepCall] at hstep
+      split at hstep
+      · cases hstep; exact hv
+      · cases hstep
+  have c1 := viewChecked_of_viewOkB hview
+  exact ⟨v1, s1, hstep, ⟨hinv2, c1.index, c1.dfsFuelOk⟩, inv2_acyclic hinv2 c1.directed c1.edgesLive⟩
+
+/-- **a checked `try_from_graph` is inside the exactness theorem's scope** (`TopoFuelOk` included):
+on a graph line that passed `viewOkB`, the model accepts iff the graph is acyclic, answers
+`Err(Cycle(_))` only if it is not, and an accepted state is `Safe`. -/
+theorem C14_checked_from (v : View) (hv : C14.viewOkB v = true) :
+    ((∃ s, tryFromGraph v = .ok (.inr s)) ↔ Dag.Acyclic v.g) ∧
+    (∀ x, tryFromGraph v = .ok (.inl x) → ¬ Dag.Acyclic v.g) ∧
+    (∀ s, tryFromGraph v = .ok (.inr s) → Safe v s) := by
+  have c := viewChecked_of_viewOkB hv
+  have hex := C14_try_from_graph_exact v c.closed c.viewOk c.srcLive c.directed c.edgesLive c.index c.topoFuelOk
+  exact ⟨hex.1, hex.2, fun s hs => ⟨tryFromGraph_sound c.closed c.viewOk c.srcLive hs, c.index, c.dfsFuelOk⟩⟩
+
+/-- non-vacuity of the checks: the example view and state pass them, and so does a real call -/
+example : C14.viewOkB exView = true ∧ C14.safeB exView exState = true := by decide
+/-- … and the checks can fail: a view whose neighbour iteration repeats an edge 25 times (the witness
+of `C14_try_from_graph_complete_statement_false`) is rejected, and so is a state whose order has the
+edge `0 → 1` going backwards -/
+example : C14.viewOkB completeWitness = false ∧ C14.viewWhy completeWitness = "neighbour-lists-fit-dfs-fuel" ∧
+    C14.viewWhy { completeWitness with nb := 20 } = "successor-lists-fit-toposort-fuel (TopoFuelOk)" ∧
+    C14.safeB exView { om := { p2n := [(0, 1), (1, 0), (2, 2)], n2p := [1, 0, 2] }, cap := 3 } = false := by decide
+example : innerOkB exView (.isValid 2 0) = true ∧ edgesOkB exView (.isValid 2 0) = true := by decide
+
+/-! ### wave 4: the contracts instantiated with the C01 / C02 storage models
+
+Above, "all histories" quantifies over every inner-graph behaviour satisfying `Call.InnerOk` /
+`EdgesOk`.  Here the inner graph is no longer a parameter: `Acyclic<DiGraph>` is the machine
+`AcyG.AG` = the C01 mirror model of `Graph` (`Model/Graph.lean`, linked-list adjacency, `swap_remove`
+removal) + the C14 bookkeeping, and `Acyclic<StableDiGraph>` is `AcyS.AS` = the C02 mirror model of
+`StableGraph` (`Model/StableGraph.lean`, vacant slots, both free lists, index reuse) + the same
+bookkeeping; `gView` / `sView` is what the generic code of `acyclic.rs` sees of them
+(`node_identifiers`, `node_bound`, `neighbors_directed`); the definitions are core-only
+(`Model/AcyclicGraph.lean`, `Model/AcyclicStable.lean`) and the C14 driver replays both machines
+beside every case of the correspondence run, comparing `gView` / `sView` with the real crate's inner
+graph after every call.  Using the representation invariants and
+refinement theorems of C01 / C02, both storage models are proved to satisfy the contracts for every
+call, so the `C14_*` theorems hold for them UNCONDITIONALLY — for all histories of calls with
+arbitrary (also absent) arguments, all index limits (`endv` / `fin` arbitrary), debug and release. -/
+
+/-- what a well-formed inner graph presents (`ViewOk`, `Closed`, sources live, index < `node_bound`,
+both fuel bounds): the view part of `Safe` + `TopoFuelOk` -/
+abbrev ViewGood := AcyG.ViewGood
+
+/-- **a directed `Graph` / `StableGraph` presents a well-formed view** in every state satisfying its
+own (C01 / C02) representation invariant — i.e. in every reachable state (`C01_inv_all_histories`,
+`C02_all_histories`).  In particular `TopoFuelOk` holds: a real graph lists every edge once. -/
+theorem C14_storage_views_ok :
+    (∀ s : G.State, GProofs.Inv s → s.directed = true → ViewGood (AcyG.gView s)) ∧
+    (∀ s : SG.State, SGProofs.Inv s → s.directed = true → ViewGood (AcyS.sView s)) :=
+  ⟨fun _ h hd => AcyG.gView_good h hd, fun _ h hd => AcyS.sView_good h hd⟩
+
+/-- **`DiGraph` satisfies the contracts** (C01 model): `add_node`, `add_edge`, `update_edge`,
+`remove_edge`, `remove_node` — the last through C01's `swap_remove` theorem: the last node moves into
+the freed index (`RemoveContract`, second clause; the `rho` clause of `EdgesOk`). -/
+theorem C14_digraph_contracts (s : G.State) (h : GProofs.Inv s) (hd : s.directed = true) :
+    (∀ s' w i, G.tryAddNode s w = (s', some i) →
+      (Call.addNode i (AcyG.gView s')).InnerOk (AcyG.gView s) ∧ EdgesOk (AcyG.gView s) (.addNode i (AcyG.gView s'))) ∧
+    (∀ s' a b w e, G.tryAddEdge s a b w = (s', .ok e) →
+      (Call.edge a b (AcyG.gView s')).InnerOk (AcyG.gView s) ∧ EdgesOk (AcyG.gView s) (.edge a b (AcyG.gView s'))) ∧
+    (∀ s' a b w e, a < s.nodes.length → b < s.nodes.length → G.tryUpdateEdge s a b w = .ok (s', .ok e) →
+      (Call.edge a b (AcyG.gView s')).InnerOk (AcyG.gView s) ∧ EdgesOk (AcyG.gView s) (.edge a b (AcyG.gView s'))) ∧
+    (∀ e ed, s.edges[e]? = some ed → ∃ s', G.removeEdge s e = .ok (s', some ed.weight) ∧
+      (Call.removeEdge (AcyG.gView s')).InnerOk (AcyG.gView s) ∧ EdgesOk (AcyG.gView s) (.removeEdge (AcyG.gView s'))) ∧
+    (∀ a nd, s.nodes[a]? = some nd → ∃ s', G.removeNode s a = .ok (s', some nd.weight) ∧
+      (Call.removeNode a (AcyG.gView s')).InnerOk (AcyG.gView s) ∧ EdgesOk (AcyG.gView s) (.removeNode a (AcyG.gView s'))) := by
+  refine ⟨fun s' w i hs => ?_, fun s' a b w e hs => ?_, fun s' a b w e ha hb hs => ?_, fun e ed hed => ?_, fun a nd hnd => ?_⟩
+  · exact (AcyG.contract_addNode h hd hs).2.2.2
+  · exact (AcyG.contract_addEdge h hd hs).2.2
+  · exact (AcyG.contract_updateEdge h hd ha hb hs).2.2
+  · obtain ⟨s', h1, _, _, h2⟩ := AcyG.contract_removeEdge h hd hed
+    exact ⟨s', h1, h2⟩
+  · obtain ⟨s', h1, _, _, _, h2⟩ := AcyG.contract_removeNode h hd hnd
+    exact ⟨s', h1, h2⟩
+
+/-- **`StableDiGraph` satisfies the contracts** (C02 model): `add_node` hands out any fresh index
+(a reused vacancy or a new slot), `remove_node` makes the index vanish and renumbers nothing
+(`RemoveContract`, first clause; `rho` = identity). -/
+theorem C14_stable_contracts (s : SG.State) (h : SGProofs.Inv s) (hd : s.directed = true) :
+    (∀ s' w i, SG.tryAddNode s w = .ok (s', .ok i) →
+      (Call.addNode i (AcyS.sView s')).InnerOk (AcyS.sView s) ∧ EdgesOk (AcyS.sView s) (.addNode i (AcyS.sView s'))) ∧
+    (∀ s' a b w e, SG.tryAddEdge s a b w = .ok (s', .ok e) →
+      (Call.edge a b (AcyS.sView s')).InnerOk (AcyS.sView s) ∧ EdgesOk (AcyS.sView s) (.edge a b (AcyS.sView s'))) ∧
+    (∀ s' a b w e, AcyS.Live s a → AcyS.Live s b → SG.tryUpdateEdge s a b w = .ok (s', .ok e) →
+      (Call.edge a b (AcyS.sView s')).InnerOk (AcyS.sView s) ∧ EdgesOk (AcyS.sView s) (.edge a b (AcyS.sView s'))) ∧
+    (∀ s' e r, SG.removeEdge s e = .ok (s', r) →
+      (Call.removeEdge (AcyS.sView s')).InnerOk (AcyS.sView s) ∧ EdgesOk (AcyS.sView s) (.removeEdge (AcyS.sView s'))) ∧
+    (∀ s' a r, SG.removeNode s a = .ok (s', r) →
+      (Call.removeNode a (AcyS.sView s')).InnerOk (AcyS.sView s) ∧ EdgesOk (AcyS.sView s) (.removeNode a (AcyS.sView s'))) :=
+  ⟨fun _ _ _ hs => (AcyS.scontract_addNode h hd hs).2.2, fun _ _ _ _ _ hs => (AcyS.scontract_addEdge h hd hs).2.2,
+   fun _ _ _ _ _ ha hb hs => (AcyS.scontract_updateEdge h hd ha hb hs).2.2,
+   fun _ _ _ hs => (AcyS.scontract_removeEdge h hd hs).2.2, fun _ _ _ hs => (AcyS.scontract_removeNode h hd hs).2.2.2.2⟩
+
+/-- the invariant of `Acyclic<DiGraph>` / `Acyclic<StableDiGraph>`: the storage model's own
+representation invariant, directedness, and `Inv2` over the view it presents -/
+abbrev AGInv := AcyG.AGInv
+abbrev ASInv := AcyS.ASInv
+
+/-- `Acyclic::new()` / `with_capacity` establish the invariant, for every index limit -/
+theorem C14_storage_inv_new :
+    (∀ endv cap, AGInv (AcyG.AG.new endv cap)) ∧ (∀ fin noLimit debug cap, ASInv (AcyS.AS.new fin noLimit debug cap)) :=
+  ⟨AcyG.ag_inv_new, AcyS.as_inv_new⟩
+
+/-- **every call of `Acyclic<DiGraph>` / `Acyclic<StableDiGraph>` preserves the invariant**, with
+arbitrary arguments (live or absent), whenever it returns — NO hypothesis about the inner graph. -/
+theorem C14_storage_inv_step :
+    (∀ (x x' : AcyG.AG) (op : AcyG.AOp), AGInv x → x.step op = .ok x' → AGInv x') ∧
+    (∀ (x x' : AcyS.AS) (op : AcyG.AOp), ASInv x → x.step op = .ok x' → ASInv x') :=
+  ⟨fun _ _ _ hx h => AcyG.ag_inv_step hx h, fun _ _ _ hx h => AcyS.as_inv_step hx h⟩
+
+/-- **ALL HISTORIES, `Acyclic<DiGraph>`** (unconditional): after any finite sequence of `add_node`,
+`try_add_edge` / `add_edge`, `try_update_edge` / `update_edge`, `remove_edge`, `remove_node`,
+`is_valid_edge` with arbitrary arguments on a graph built by `new` / `with_capacity` (any index width),
+the wrapped graph has no directed cycle, the order lists exactly the node indices `0 .. node_count`,
+each once, every edge goes from an earlier to a later position, and the state is `Safe` (so none of
+the following calls on live arguments can panic). -/
+theorem C14_digraph_all_histories (endv cap : Nat) (ops : List AcyG.AOp) (x : AcyG.AG)
+    (h : AcyG.AG.run (AcyG.AG.new endv cap) ops = .ok x) :
+    Dag.Acyclic (AcyG.gView x.g).g ∧
+    x.a.om.nodesIter.Nodup ∧ (∀ n, n ∈ x.a.om.nodesIter ↔ n < x.g.nodes.length) ∧
+    (∀ e ∈ (AcyG.gView x.g).g.edges, ∃ ps pt, x.a.om.getPos e.src = .ok ps ∧ x.a.om.getPos e.tgt = .ok pt ∧ ps < pt) ∧
+    Safe (AcyG.gView x.g) x.a := by
+  have hx := AcyG.ag_inv_run ops _ x (AcyG.ag_inv_new endv cap) h
+  obtain ⟨h1, h2, h3, h4⟩ := AcyG.ag_inv_meaning hx
+  exact ⟨h2, h3, h4, inv2_topo hx.2.2 (AcyG.gView_good hx.1 hx.2.1).edgesLive, h1⟩
+
+/-- **ALL HISTORIES, `Acyclic<StableDiGraph>`** (unconditional), debug and release, any index width:
+the same with "the live node indices" for "`0 .. node_count`". -/
+theorem C14_stable_all_histories (fin : Nat) (noLimit debug : Bool) (cap : Nat) (ops : List AcyG.AOp) (x : AcyS.AS)
+    (h : AcyS.AS.run (AcyS.AS.new fin noLimit debug cap) ops = .ok x) :
+    Dag.Acyclic (AcyS.sView x.g).g ∧
+    x.a.om.nodesIter.Nodup ∧ (∀ n, n ∈ x.a.om.nodesIter ↔ (SG.nodeWeight x.g n).isSome = true) ∧
+    (∀ e ∈ (AcyS.sView x.g).g.edges, ∃ ps pt, x.a.om.getPos e.src = .ok ps ∧ x.a.om.getPos e.tgt = .ok pt ∧ ps < pt) ∧
+    Safe (AcyS.sView x.g) x.a := by
+  have hx := AcyS.as_inv_run ops _ x (AcyS.as_inv_new fin noLimit debug cap) h
+  obtain ⟨h1, h2, h3, h4⟩ := AcyS.as_inv_meaning hx
+  exact ⟨h2, h3, h4, inv2_topo hx.2.2 (AcyS.sView_good hx.1 hx.2.1).edgesLive, h1⟩
+
+/-- **a rejected (failed) `try_add_edge` / `try_update_edge` leaves `OrderMap` AND graph equal**: the
+inner graph afterwards is the SAME storage state — every vector, link and free list — not merely an
+equal graph, and the order map and scratch sets are equal.  Both storage models, any state. -/
+theorem C14_storage_reject_unchanged :
+    (∀ (x x' : AcyG.AG) (a b w : Nat) (a' : AState) (r : EdgeRes),
+      tryAddEdge (AcyG.gView x.g) x.a a b = .ok (a', r) → r ≠ .accepted →
+      (x.step (.tryAddEdge a b w) = .ok x' ∨ x.step (.tryUpdateEdge a b w) = .ok x') →
+      x'.g = x.g ∧ x'.a.om = x.a.om ∧ x'.a.disc = x.a.disc ∧ x'.a.fin = x.a.fin) ∧
+    (∀ (x x' : AcyS.AS) (a b w : Nat) (a' : AState) (r : EdgeRes),
+      tryAddEdge (AcyS.sView x.g) x.a a b = .ok (a', r) → r ≠ .accepted →
+      (x.step (.tryAddEdge a b w) = .ok x' ∨ x.step (.tryUpdateEdge a b w) = .ok x') →
+      x'.g = x.g ∧ x'.a.om = x.a.om ∧ x'.a.disc = x.a.disc ∧ x'.a.fin = x.a.fin) := by
+  constructor
+  · intro x x' a b w a' r hres hr hstep
+    rcases hstep with hs | hs
+    · exact (AcyG.ag_reject_unchanged hres hr).1 hs
+    · exact (AcyG.ag_reject_unchanged hres hr).2 hs
+  · intro x x' a b w a' r hres hr hstep
+    rcases hstep with hs | hs
+    · exact (AcyS.as_reject_unchanged hres hr).1 hs
+    · exact (AcyS.as_reject_unchanged hres hr).2 hs
+
+/-- **NO PANIC except the documented ones, `Acyclic<DiGraph>`**: in every state satisfying the
+invariant (every reachable state), `add_node` returns unless the node-index limit is reached;
+`try_add_edge` / `try_update_edge` on live endpoints return unless the edge-index limit is reached;
+`remove_edge`, `remove_node` with ANY argument and `is_valid_edge` on live arguments always return —
+no mirrored assertion of `acyclic.rs` fires, no fuel runs out, the C01 model never faults. -/
+theorem C14_digraph_no_panic (x : AcyG.AG) (hx : AGInv x) :
+    (∀ w, x.g.nodes.length ≠ x.g.endv → ∃ x', x.step (.addNode w) = .ok x') ∧
+    (∀ a b w, a < x.g.nodes.length → b < x.g.nodes.length → x.g.edges.length ≠ x.g.endv →
+      (∃ x', x.step (.tryAddEdge a b w) = .ok x') ∧ (∃ x', x.step (.tryUpdateEdge a b w) = .ok x')) ∧
+    (∀ e, ∃ x', x.step (.removeEdge e) = .ok x') ∧
+    (∀ n, ∃ x', x.step (.removeNode n) = .ok x') ∧
+    (∀ a b, a < x.g.nodes.length → b < x.g.nodes.length → ∃ x', x.step (.isValidEdge a b) = .ok x') :=
+  AcyG.ag_no_panic hx
+
+/-- **NO PANIC except the documented ones, `Acyclic<StableDiGraph>`** (debug and release) -/
+theorem C14_stable_no_panic (x : AcyS.AS) (hx : ASInv x) :
+    (∀ w, x.g.nodeCount ≠ x.g.fin → ∃ x', x.step (.addNode w) = .ok x') ∧
+    (∀ a b w, AcyS.Live x.g a → AcyS.Live x.g b → x.g.edgeCount ≠ x.g.fin →
+      (∃ x', x.step (.tryAddEdge a b w) = .ok x') ∧ (∃ x', x.step (.tryUpdateEdge a b w) = .ok x')) ∧
+    (∀ e, ∃ x', x.step (.removeEdge e) = .ok x') ∧
+    (∀ n, ∃ x', x.step (.removeNode n) = .ok x') ∧
+    (∀ a b, AcyS.Live x.g a → AcyS.Live x.g b → ∃ x', x.step (.isValidEdge a b) = .ok x') :=
+  AcyS.as_no_panic hx
+
+/-- **`try_from_graph` / `TryFrom` accept exactly the acyclic graphs — without `TopoFuelOk`**: for a
+`DiGraph` / `StableDiGraph` (with or without vacancies) in any state satisfying its representation
+invariant the call never panics, answers `Ok` iff the graph has no directed cycle, wraps the graph
+unchanged, and establishes the invariant (so every history continues from there). -/
+theorem C14_storage_try_from_graph :
+    (∀ g : G.State, GProofs.Inv g → g.directed = true →
+      ((∃ x, AcyG.AG.tryFromGraph g = .ok (.inr x)) ↔ Dag.Acyclic (AcyG.gView g).g) ∧
+      (∀ x, AcyG.AG.tryFromGraph g = .ok (.inr x) → x.g = g ∧ AGInv x) ∧
+      (∀ n, AcyG.AG.tryFromGraph g = .ok (.inl n) → ¬ Dag.Acyclic (AcyG.gView g).g)) ∧
+    (∀ g : SG.State, SGProofs.Inv g → g.directed = true →
+      ((∃ x, AcyS.AS.tryFromGraph g = .ok (.inr x)) ↔ Dag.Acyclic (AcyS.sView g).g) ∧
+      (∀ x, AcyS.AS.tryFromGraph g = .ok (.inr x) → x.g = g ∧ ASInv x) ∧
+      (∀ n, AcyS.AS.tryFromGraph g = .ok (.inl n) → ¬ Dag.Acyclic (AcyS.sView g).g)) := by
+  constructor
+  · intro g hi hd
+    obtain ⟨h1, h2, h3, _⟩ := AcyG.ag_tryFromGraph hi hd
+    exact ⟨h1, h2, h3⟩
+  · intro g hi hd
+    exact AcyS.as_tryFromGraph hi hd
+
+/-- all histories continue from any state satisfying the invariant — in particular from an accepted
+`try_from_graph` -/
+theorem C14_storage_inv_history :
+    (∀ (ops : List AcyG.AOp) (x x' : AcyG.AG), AGInv x → AcyG.AG.run x ops = .ok x' → AGInv x') ∧
+    (∀ (ops : List AcyG.AOp) (x x' : AcyS.AS), ASInv x → AcyS.AS.run x ops = .ok x' → ASInv x') :=
+  ⟨AcyG.ag_inv_run, AcyS.as_inv_run⟩
+
+/-- non-vacuity: a concrete history of `Acyclic<DiGraph>` over the C01 model — two nodes, the insertion
+`1 → 0` against the initial order forces a reorder, the reverse insertion `0 → 1` is then rejected -/
+example : (okOf (AcyG.AG.run (AcyG.AG.new 255 0) [.addNode 10, .addNode 11, .tryAddEdge 1 0 7, .tryAddEdge 0 1 8])).map
+    (fun x => (x.a.om.nodesIter, x.g.edges.length)) = some ([1, 0], 1) := by decide
+
+/-- … and of `Acyclic<StableDiGraph>` over the C02 model (debug build, `u8` indices): the insertion
+`1 → 0` reorders -/
+example : (okOf (AcyS.AS.run (AcyS.AS.new 255 false true 0) [.addNode 10, .addNode 11, .tryAddEdge 1 0 7])).map
+    (fun x => (x.a.om.nodesIter, SG.nodeIndices x.g, x.g.edgeCount)) = some ([1, 0], [0, 1], 1) := by decide
 
 end PetgraphModel.C14T
